@@ -3,7 +3,7 @@ from __future__ import annotations
 
 import ast
 
-from ..loader import AnalysisError, call_attr, call_name, dotted, unparse
+from ..loader import AnalysisError, call_attr, call_name, dotted, unparse, walk_own
 from ..prototab import ProtoTable
 from ..rulekit import arg_of, const_value, def_value, is_none_test, local_defs
 from ..symeval import Const, Field, SymEval, Tup, Unk, make_struct
@@ -52,6 +52,32 @@ def rule_gate(ctx):
     st = ca.stores(attr="_reassignment_in_progress")
     sa = ca.stores(attr="_assignment")
     ctx.ob(R, fa, fa.node, len(st) == 1 and len(sa) == 1 and ca.dominates(sa[0], st[0]), "gate released before the new assignment is installed", text="release-after-install")
+    # the futures a gated getone()/getmany() parks on are resolved *normally* only where an assignment is installed; anything else that
+    # touches them (fatal coordination errors) must fail them, or the parked call goes on to hand out records of the revoked assignment
+    ci = ctx.repo.cls(SUBS)
+    resolvers = []
+    for name, fm_ in ci.methods.items():
+        for lp in [x for x in ast.walk(fm_.node) if isinstance(x, ast.For) and unparse(x.iter) == "self._assignment_waiters"]:
+            calls_ = {call_attr(x) for x in ast.walk(lp) if isinstance(x, ast.Call)}
+            if "set_result" in calls_:
+                resolvers.append(fm_)
+            ctx.ob(R, fm_, lp, ("set_result" in calls_) != ("set_exception" in calls_) and (name == "_notify_assignment_waiters" or "set_result" not in calls_),
+                   f"{name} resolves the gate's waiters with {sorted(calls_ & {'set_result', 'set_exception'})}: only _notify_assignment_waiters may complete them normally", text="waiters-resolved-by:" + name)
+    ctx.anchor(len(resolvers) == 1, "_notify_assignment_waiters resolving the assignment waiters")
+    installers = {"assign_from_user", "assign_from_subscribed"}
+    callers = set()
+    for q, f_ in ctx.repo.funcs.items():
+        if q.startswith("aiokafka.") and any(isinstance(x, ast.Call) and call_attr(x) == "_notify_assignment_waiters" for x in walk_own(f_.node)):
+            callers.add(q)
+    bad = sorted(c_ for c_ in callers if not (c_.startswith(SUBS + ".") and c_.rsplit(".", 1)[-1] in installers))
+    ctx.ob(R, resolvers[0], resolvers[0].node, bool(callers) and not bad,
+           f"the gate's waiters are released normally by {bad}: only the functions that install a new assignment ({sorted(installers)}) may do that", text="waiters-released-only-on-install")
+    for nm in sorted(installers):
+        fi_ = ctx.fn(f"{SUBS}.{nm}")
+        ci_ = ctx.cfg(fi_)
+        nt = ci_.calls(attr="_notify_assignment_waiters")
+        inst = [x for x in ci_.nodes if x.kind == "call" and call_attr(x.ast) in ("_assign", "_change_subscription")]
+        ctx.ob(R, fi_, fi_.node, len(nt) == 1 and bool(inst) and all(ci_.dominates(i_, nt[0]) for i_ in inst[:1]), f"{nm} releases the waiters before the new assignment is installed", text="release-after-install:" + nm)
     fg = ctx.fn(f"{SUBS}.reassignment_in_progress")
     r = [x for x in ctx.cfg(fg).nodes if x.kind == "return"]
     vals = sorted(unparse(x.ast.value) for x in r)
